@@ -8,21 +8,23 @@ Monitors: the property itself on the real answers (chase every slot from every p
 import vlib, random
 
 MANIFEST = {
-  'text': 'Theorems C02_route, C02_no_stray_exec, C02_progress (all node lists with partition_ok + view_wfb, all slots, all start proxies, '
-          'all phase assignments made of the eight handshake pairs, all chases incl. hash-order dependent choices: <= 1 redirection for a stable slot, '
-          '<= 2 for a migrating one with phases fixed, end = execution on the designated node or parked behind a raised barrier on an allowed node, '
-          'never an error, never a node other than owner / source / destination) and C02_install_of_view (the tables are the ones a proxy gets from '
-          'its own broker view) about Model/Route.v, which mirrors send_cmd_ctx / MigrationMap::send / the scan tasks\' send / SlotMap / RangeMap / '
-          'TaskBlockingQueue::send; the model is tied to the code by running real proxies fed by the real broker store through the real coordinator '
-          'encoder in both encodings with the migration handshake pinned in each of the eight phase pairs and comparing every (proxy, slot) answer, '
-          'and the property monitor (chase from every proxy for every slot) is evaluated on the real answers.',
+  'text': 'Theorems C02_route, C02_route_dynamic, C02_no_stray_exec, C02_progress (all node lists with partition_ok + view_wfb, all slots, all start '
+          'proxies, all phase assignments made of the eight handshake pairs, all chases incl. hash-order dependent choices: <= 1 redirection for a '
+          'stable slot, <= 2 for a migrating one with phases fixed and <= 3 when the handshake advances during the chase (bound reached), end = '
+          'execution on the designated node or parked behind a raised barrier on an allowed node, never an error, never a node other than owner / '
+          'source / destination) and C02_install_of_view (the tables are the ones a proxy gets from its own broker view) about Model/Route.v, which '
+          'mirrors send_cmd_ctx / MigrationMap::send / the scan tasks\' send / SlotMap / RangeMap / TaskBlockingQueue::send; the model is tied to '
+          'the code by running real proxies fed by the real broker store through the real coordinator encoder in both encodings with the migration '
+          'handshake pinned in each of the eight phase pairs and comparing every (proxy, slot) answer, and the property monitor (chase from every '
+          'proxy for every slot) is evaluated on the real answers.',
   'note': 'Coq kernel; closed under the global context; extraction (ExtrOcamlBasic) + OCaml driver; in-process fake Redis nodes and fake control '
           'network. PARTIAL for phase races: all eight (source, destination) phase pairs are forced on the real tasks and probed while they are '
-          'stable, but a phase change DURING a chase (which is where the third redirection of the property text comes from) is not exercised on '
-          'the real code; with phases fixed the model-level bound is 2. Hypothesis view_wfb (normalised tagged ranges, distinct master node '
-          'addresses, distinct peer proxy addresses, source proxy <> destination proxy) is not derived from the broker invariant here; it is '
-          'checked on every real view of the run. Outside the eight pairs (reachable only through the max_blocking_time time-out) the model shows '
-          'a MOVED ping-pong and a two-node split (Examples C02_*_outside_consistent_pairs); those are not claimed. active_redirection = false only.',
+          'stable, but a phase change DURING a chase (the third redirection) is covered by C02_route_dynamic at model level only. Hypothesis '
+          'view_wfb (normalised tagged ranges, distinct master node addresses, distinct peer proxy addresses, source proxy <> destination proxy) '
+          'is not derived from the broker invariant here; it is checked on every real view of the run. Outside the eight pairs (reachable only '
+          'through the max_blocking_time time-out of scan_task.rs) the model shows a MOVED ping-pong and a two-node split (Examples '
+          'C02_*_outside_consistent_pairs); those are not claimed. active_redirection = false only. Parked commands are recognised by a quiescence '
+          'time-out in the harness; a failing case is re-run once in isolation with a longer time-out before it is reported.',
   'technique': 'Coq proof over a hand-written model + differential correspondence check against real in-process proxies',
  }
 
@@ -137,21 +139,47 @@ def split_impl(line):
     return {'resolved': parts[0][2:], 'V': parts[1], 'PH': parts[2], 'OBS': parts[3], 'MON': parts[4][4:]}
 
 
-def run_pipeline(chk, lines, jobs):
-    rc, impl = chk.run_impl('route', lines, jobs=jobs, timeout=3000)
-    parsed, mlines = [], []
-    for i, l in enumerate(lines):
-        o = impl[i] if i < len(impl) else ''
-        p = split_impl(o)
-        parsed.append((p, o))
-        if p:
-            mlines.append(l.split('|')[0] + '| ' + p['resolved'] + ' ## ' + p['PH'] + ' ## ' + p['OBS'])
-        else:
-            mlines.append(None)
+def model_lines(lines, parsed):
+    out = []
+    for l, (p, o) in zip(lines, parsed):
+        out.append(l.split('|')[0] + '| ' + p['resolved'] + ' ## ' + p['PH'] + ' ## ' + p['OBS'] if p else None)
+    return out
+
+
+def run_model_on(chk, mlines, jobs):
     todo = [m for m in mlines if m]
     rc2, model = chk.run_model('route', todo, jobs=jobs, timeout=3000) if todo else (0, [])
     it = iter(model)
-    mout = [next(it, '') if m else '' for m in mlines]
+    return [next(it, '') if m else '' for m in mlines]
+
+
+def case_ok(p, m):
+    if not p or not p['MON'].startswith('ok ') or ' note=' in p['MON']:
+        return False
+    mp = m.split(' ## ')
+    return len(mp) == 4 and [p['V'], p['PH'], p['OBS']] == mp[:3]
+
+
+def run_pipeline(chk, lines, jobs, retried=None):
+    """every case through the real proxies, then through the model.  Whether a probe is parked in a blocking queue is decided by a
+    quiescence time-out inside the harness (1.5 s without any reply and without any command reaching a fake Redis node), which a
+    starved machine can defeat; therefore a case that fails is re-run ONCE, alone, with a 5 s threshold, and only the second result counts."""
+    rc, impl = chk.run_impl('route', lines, jobs=jobs, timeout=3000)
+    parsed = []
+    for i, l in enumerate(lines):
+        o = impl[i] if i < len(impl) else ''
+        parsed.append((split_impl(o), o))
+    mout = run_model_on(chk, model_lines(lines, parsed), jobs)
+    bad = [i for i in range(len(lines)) if not case_ok(parsed[i][0], mout[i])]
+    for i in bad[:12]:
+        rc, o = vlib.sh([vlib.UMH('route')], inp=lines[i] + '\n', timeout=600, env=dict(vlib.ENV, UM_ROUTE_IDLE_MS='5000'))
+        o = o.strip().split('\n')[-1] if o.strip() else ''
+        p2 = (split_impl(o), o)
+        m2 = run_model_on(chk, model_lines([lines[i]], [p2]), 1)[0]
+        if retried is not None:
+            retried.append({'case': lines[i][:200], 'first': (parsed[i][0] or {}).get('MON', parsed[i][1][:200])[:300],
+                            'second': (p2[0] or {}).get('MON', o[:200])[:300], 'second_ok': case_ok(p2[0], m2)})
+        parsed[i], mout[i] = p2, m2
     return parsed, mout
 
 
@@ -230,9 +258,11 @@ def run(chk):
         return
     cases = gen_cases(chk)
     lines = [case_line(c) for c in cases]
-    jobs = 10
-    parsed, mout = run_pipeline(chk, lines, jobs)
+    jobs = 6
+    retried = []
+    parsed, mout = run_pipeline(chk, lines, jobs, retried)
     stats = analyse(chk, cases, lines, parsed, mout)
+    stats['retried_cases'] = retried
     stats['pairs_only_at_model_level'] = [v for v in PAIR.values() if v not in stats['pairs_exercised_on_real_tasks']]
     stats['phase_change_during_a_chase'] = 'not exercised on the real code (model level only)'
     chk.sub('distribution', **stats)
